@@ -315,10 +315,21 @@ func execRdInner(o hx.Op, in []byte) string {
 }
 
 // finAdd: builder result, read-back check, comparison with encoding/asn1.Marshal
-func finAdd(b *cryptobyte.Builder, rt func(s *cryptobyte.String) bool, av any, params string) string {
+// mut (may be nil) reports whether the builder modified its argument; scribble (may be nil) overwrites the
+// argument afterwards — the bytes returned by Bytes() must not change (the Builder must not retain inputs).
+func finAdd(b *cryptobyte.Builder, rt func(s *cryptobyte.String) bool, av any, params string, mut func() bool, scribble func()) string {
 	out, err := b.Bytes()
 	if err != nil {
 		return "err"
+	}
+	m := mut != nil && mut()
+	if scribble != nil {
+		snap := append([]byte(nil), out...)
+		scribble()
+		if !bytes.Equal(snap, out) {
+			m = true
+		}
+		out = snap
 	}
 	s := cryptobyte.String(out)
 	r := rt(&s) && s.Empty()
@@ -331,57 +342,84 @@ func finAdd(b *cryptobyte.Builder, rt func(s *cryptobyte.String) bool, av any, p
 			eq = "0"
 		}
 	}
-	return "ok " + showB(out) + " rt=" + b01(r) + " asn1eq=" + eq
+	return "ok " + showB(out) + " rt=" + b01(r) + " asn1eq=" + eq + " mutated=" + b01(m)
 }
 
 func execAdd(o hx.Op) string {
 	var b cryptobyte.Builder
+	var in []byte
+	var mut func() bool
+	var scribble func()
+	if o.Has("in") {
+		in, mut = guard(input(o))
+		scribble = func() {
+			full := in[:cap(in)]
+			for i := range full {
+				full[i] = 0x5c
+			}
+		}
+	}
+	want := append([]byte(nil), in...) // the value written, for the read-back comparison
 	switch o.Str("f") {
 	case "int64":
 		v, _ := strconv.ParseInt(o.Str("v"), 10, 64)
 		b.AddASN1Int64(v)
-		return finAdd(&b, func(s *cryptobyte.String) bool { var x int64; return s.ReadASN1Integer(&x) && x == v }, v, "")
+		return finAdd(&b, func(s *cryptobyte.String) bool {
+			x := int64(-0x0102030405060708)
+			return s.ReadASN1Integer(&x) && x == v
+		}, v, "", nil, nil)
 	case "int64tag":
 		v, _ := strconv.ParseInt(o.Str("v"), 10, 64)
 		t := tagOf(o)
 		b.AddASN1Int64WithTag(v, t)
-		return finAdd(&b, func(s *cryptobyte.String) bool { var x int64; return s.ReadASN1Int64WithTag(&x, t) && x == v }, nil, "")
+		return finAdd(&b, func(s *cryptobyte.String) bool {
+			x := int64(-0x0102030405060708)
+			return s.ReadASN1Int64WithTag(&x, t) && x == v
+		}, nil, "", nil, nil)
 	case "enum":
 		v, _ := strconv.ParseInt(o.Str("v"), 10, 64)
 		b.AddASN1Enum(v)
-		return finAdd(&b, func(s *cryptobyte.String) bool { var x int; return s.ReadASN1Enum(&x) && int64(x) == v }, encasn1.Enumerated(v), "")
+		return finAdd(&b, func(s *cryptobyte.String) bool {
+			x := int(-0x0102030405060708)
+			return s.ReadASN1Enum(&x) && int64(x) == v
+		}, encasn1.Enumerated(v), "", nil, nil)
 	case "uint64":
 		v, _ := strconv.ParseUint(o.Str("v"), 10, 64)
 		b.AddASN1Uint64(v)
-		return finAdd(&b, func(s *cryptobyte.String) bool { var x uint64; return s.ReadASN1Integer(&x) && x == v }, nil, "")
+		return finAdd(&b, func(s *cryptobyte.String) bool {
+			x := uint64(0xfefdfcfbfaf9f8f7)
+			return s.ReadASN1Integer(&x) && x == v
+		}, nil, "", nil, nil)
 	case "bigint":
 		v, _ := new(big.Int).SetString(o.Str("v"), 10)
+		orig := new(big.Int).Set(v)
 		b.AddASN1BigInt(v)
-		return finAdd(&b, func(s *cryptobyte.String) bool { x := new(big.Int); return s.ReadASN1Integer(x) && x.Cmp(v) == 0 }, v, "")
+		return finAdd(&b, func(s *cryptobyte.String) bool {
+			x := big.NewInt(-0x0102030405)
+			return s.ReadASN1Integer(x) && x.Cmp(v) == 0
+		}, v, "", func() bool { return v.Cmp(orig) != 0 }, nil)
 	case "octet":
-		in := input(o)
 		b.AddASN1OctetString(in)
 		return finAdd(&b, func(s *cryptobyte.String) bool {
 			var x []byte
-			return s.ReadASN1Bytes(&x, asn1.OCTET_STRING) && bytes.Equal(x, in)
-		}, in, "")
+			return s.ReadASN1Bytes(&x, asn1.OCTET_STRING) && bytes.Equal(x, want)
+		}, want, "", mut, scribble)
 	case "bits":
-		in := input(o)
 		b.AddASN1BitString(in)
 		return finAdd(&b, func(s *cryptobyte.String) bool {
 			var x encasn1.BitString
-			return s.ReadASN1BitString(&x) && bytes.Equal(x.Bytes, in) && x.BitLength == 8*len(in)
-		}, encasn1.BitString{Bytes: in, BitLength: 8 * len(in)}, "")
+			return s.ReadASN1BitString(&x) && bytes.Equal(x.Bytes, want) && x.BitLength == 8*len(want)
+		}, encasn1.BitString{Bytes: want, BitLength: 8 * len(want)}, "", mut, scribble)
 	case "bool":
 		v := o.Int("v") != 0
 		b.AddASN1Boolean(v)
-		return finAdd(&b, func(s *cryptobyte.String) bool { var x bool; return s.ReadASN1Boolean(&x) && x == v }, v, "")
+		return finAdd(&b, func(s *cryptobyte.String) bool { x := !v; return s.ReadASN1Boolean(&x) && x == v }, v, "", nil, nil)
 	case "null":
 		b.AddASN1NULL()
 		return finAdd(&b, func(s *cryptobyte.String) bool {
 			var x cryptobyte.String
 			return s.ReadASN1(&x, asn1.NULL) && len(x) == 0
-		}, encasn1.NullRawValue, "")
+		}, encasn1.NullRawValue, "", nil, nil)
 	case "oid":
 		var oid encasn1.ObjectIdentifier
 		small := true
@@ -397,6 +435,7 @@ func execAdd(o hx.Op) string {
 				oid = append(oid, int(x))
 			}
 		}
+		oidCopy := append(encasn1.ObjectIdentifier(nil), oid...)
 		b.AddASN1ObjectIdentifier(oid)
 		out, err := b.Bytes()
 		if err != nil {
@@ -410,15 +449,14 @@ func execAdd(o hx.Op) string {
 			m, err := encasn1.Marshal(oid)
 			eq = b01(err == nil && bytes.Equal(m, out))
 		}
-		return "ok " + showB(out) + " rt=" + rt + " asn1eq=" + eq
+		return "ok " + showB(out) + " rt=" + rt + " asn1eq=" + eq + " mutated=" + b01(!oid.Equal(oidCopy))
 	case "asn1":
-		in := input(o)
 		t := tagOf(o)
 		b.AddASN1(t, func(c *cryptobyte.Builder) { c.AddBytes(in) })
 		return finAdd(&b, func(s *cryptobyte.String) bool {
 			var x cryptobyte.String
-			return s.ReadASN1(&x, t) && bytes.Equal(x, in)
-		}, nil, "")
+			return s.ReadASN1(&x, t) && bytes.Equal(x, want)
+		}, nil, "", mut, scribble)
 	}
 	return "bad-op"
 }
